@@ -554,7 +554,7 @@ Section Parser.
               | TkChar => finish [Some (mk_chars ps (tpos t) (tend t) (targ t))] p1
               | TkMathInline | TkMathDisplay =>
                   let rn := match targ t with
-                            | 92%N :: _ => NMacro (tpos t) (tend t) (ps_mode ps) (targ t) (tpost t) None
+                            | 92%N :: _ => NMacro (tpos t) (tend t) (ps_mode ps) (targ t) (tpost t) (Some ([], []))
                             | _ => mk_chars ps (tpos t) (tend t) (targ t)
                             end in
                   PErr (mkerr (Some (tpos t)) 15 (Some rn) true None (Some t)) p1
